@@ -354,16 +354,32 @@ struct Prototypes
     lib::Status status;
 };
 
-inline void runWorkload(const Workload& w, OutputSink& out, const Prototypes* proto = nullptr)
+// UseProto = false (C20, and every caller without prototypes) never instantiates a copy of a library object
+template <bool UseProto, class D>
+D protoOrFresh(const D* src)
+{
+    if constexpr (UseProto)
+    {
+        if (src)
+            return D(*src);
+    }
+    (void) src;
+    return D();
+}
+
+template <bool UseProto>
+inline void runWorkloadT(const Workload& w, OutputSink& out, const Prototypes* proto)
 {
     switch (w.kind)
     {
         case 0:
         case 5:
         {
-            lib::Encoder enc = proto ? lib::Encoder(proto->enc) : lib::Encoder();
-            lib::Decoder dec = proto ? lib::Decoder(proto->dec) : lib::Decoder();
-            if (!w.enc.empty())
+            lib::Encoder enc = protoOrFresh<UseProto, lib::Encoder>(proto ? &proto->enc : nullptr);
+            lib::Decoder dec = protoOrFresh<UseProto, lib::Decoder>(proto ? &proto->dec : nullptr);
+            // a quarter of the encoder workloads never configure the ids: what a fresh encoder starts with must not depend on what else
+            // happened in the process
+            if (!w.enc.empty() && w.enc[0].dev % 4 != 3)
             {
                 enc.setDeviceId(w.enc[0].dev);
                 enc.setStreamId(w.enc[0].stream);
@@ -389,7 +405,7 @@ inline void runWorkload(const Workload& w, OutputSink& out, const Prototypes* pr
         }
         case 1:
         {
-            lib::Decoder dec = proto ? lib::Decoder(proto->dec) : lib::Decoder();
+            lib::Decoder dec = protoOrFresh<UseProto, lib::Decoder>(proto ? &proto->dec : nullptr);
             for (const auto& f : w.hist.frames)
             {
                 Bytes b = f.build();
@@ -424,7 +440,7 @@ inline void runWorkload(const Workload& w, OutputSink& out, const Prototypes* pr
         }
         case 3:
         {
-            lib::Status st = proto ? lib::Status(proto->status) : lib::Status();
+            lib::Status st = protoOrFresh<UseProto, lib::Status>(proto ? &proto->status : nullptr);
             for (size_t i = 0; i < w.status.size(); ++i)
             {
                 const StatusOp& op = w.status[i];
@@ -492,6 +508,11 @@ inline void runWorkload(const Workload& w, OutputSink& out, const Prototypes* pr
     }
 }
 
+inline void runWorkload(const Workload& w, OutputSink& out)
+{
+    runWorkloadT<false>(w, out, nullptr);
+}
+
 inline rc::Gen<Workload> genWorkload(int tier)
 {
     return rc::gen::exec([tier]() {
@@ -533,6 +554,24 @@ inline rc::Gen<Workload> genWorkload(int tier)
                 p.bigSegmentHistories = 12;
                 p.manyEndpoints = 4;  // a quarter of the decoder workloads keep 60..1030 messages in progress at once
                 w.hist = *genFrameHistory(p);
+                // a third of the histories end with a complete three-segment message of a sender that pads its frames: each segment is
+                // followed by zeros up to a minimum frame size (what is reassembled are the declared bytes, nothing of the room behind them)
+                if (*range<int>(0, 2) == 0)
+                {
+                    uint16_t seq = *anyInt<uint16_t>();
+                    for (int part = 0; part < 3; ++part)
+                    {
+                        FrameRecipe f;
+                        f.dev = 0x5151;
+                        f.stream = 0x51;
+                        f.seq = seq++;
+                        MsgRecipe m = genMsg(static_cast<uint8_t>(part + 1), 30);
+                        m.len = *range<uint32_t>(1, 30);
+                        f.msgs.push_back(m);
+                        f.trailing.assign(*range<size_t>(1, 40), 0);
+                        w.hist.frames.push_back(f);
+                    }
+                }
                 // two thirds of the histories also hold frames with typed payloads the validators accept
                 if (*range<int>(0, 2) != 0)
                 {
